@@ -19,16 +19,38 @@ Lemma PriorityEncoder_at inc a i : Forall is_bit a -> (i < length a)%nat ->
   b2z ((nth i a 0 =? 1) && all_zero (if inc then skipn (S i) a else firstn i a)).
 Proof. intros H Hi. rewrite PriorityEncoder_correct by auto. apply prio_spec_at; auto. Qed.
 
-Lemma signed_max_is_max w a b : 1 <= w -> fits w a -> fits w b ->
-  sgn w (SignedMax2_m w w a b) = Z.max (sgn w a) (sgn w b) /\ sgn w (SignedMin2_m w w a b) = Z.min (sgn w a) (sgn w b).
+Lemma signed_max_is_max mid w a b : 1 <= mid 1 1 1 -> 1 <= w -> fits w a -> fits w b ->
+  sgn w (SignedMax2_m mid w w a b) = Z.max (sgn w a) (sgn w b) /\ sgn w (SignedMin2_m mid w w a b) = Z.min (sgn w a) (sgn w b).
 Proof.
   intros. rewrite SignedMax2_correct, SignedMin2_correct by (auto; lia). split; [apply smax2_is_max | apply smin2_is_min]; auto.
 Qed.
 
-(* ---- refutations: configurations the constructors accept but for which the documented function is NOT computed *)
-(* Xor2 with a result wider than a: the bits at and above a's width come out as 1 *)
-Lemma Xor2_wide_refuted : exists wa wb wr a b, fits wa a /\ fits wb b /\ Xor2_m wa wb wr a b <> xor2_spec wr a b.
+(* ---- the two width formulas of Xor2 (mid_a: before the repair of C08-xor2-wide-result, mid_max: after) and of Equal's xor wire *)
+Lemma mid_ok_a : 1 <= mid_a 1 1 1.   Proof. unfold mid_a; lia. Qed.
+Lemma mid_ok_max : 1 <= mid_max 1 1 1. Proof. unfold mid_max; lia. Qed.
+
+Lemma Xor2_correct_a wa wb wr a b : 0 <= wr <= wa -> 0 <= wb -> fits wa a -> fits wb b -> Xor2_m mid_a wa wb wr a b = xor2_spec wr a b.
+Proof. intros. apply Xor2_correct; auto; unfold mid_a; lia. Qed.
+Lemma Xor2_correct_max wa wb wr a b : 0 <= wa -> 0 <= wb -> 0 <= wr -> fits wa a -> fits wb b -> Xor2_m mid_max wa wb wr a b = xor2_spec wr a b.
+Proof. intros. apply Xor2_correct; auto; unfold mid_max; lia. Qed.
+Lemma Xor_correct_a wi w ins : 0 <= w <= wi -> (2 <= length ins)%nat -> Forall (fits wi) ins -> Xor_m mid_a wi w ins = xor_spec w ins.
+Proof. intros. apply Xor_correct; auto; unfold mid_a; lia. Qed.
+Lemma Xor_correct_max wi w ins : 0 <= w -> 0 <= wi -> (2 <= length ins)%nat -> Forall (fits wi) ins -> Xor_m mid_max wi w ins = xor_spec w ins.
+Proof. intros. apply Xor_correct; auto; unfold mid_max; lia. Qed.
+
+(* Equal: a's width for the xor wire needs b no wider than a; the wider operand's width (on a Xor2 that fills it) needs nothing *)
+Lemma Equal_correct_a mid wa wb a b : 1 <= wa -> 0 <= wb <= wa -> wa <= mid wa wb wa -> fits wa a -> fits wb b ->
+  Equal_m mid eqw_a wa wb a b = equal_spec a b.
+Proof. intros. apply Equal_correct; unfold eqw_a; auto; lia. Qed.
+Lemma Equal_correct_max wa wb a b : 1 <= wa -> 1 <= wb -> fits wa a -> fits wb b ->
+  Equal_m mid_max eqw_max wa wb a b = equal_spec a b.
+Proof. intros. apply Equal_correct; unfold eqw_max, mid_max; auto; lia. Qed.
+
+(* ---- refutations for the formulas of the unrepaired tree: configurations the constructors accept but for which the
+   documented function is NOT computed *)
+(* Xor2 with internal wires of a's width and a result wider than a: the bits at and above a's width come out as 1 *)
+Lemma Xor2_wide_refuted : exists wa wb wr a b, fits wa a /\ fits wb b /\ Xor2_m mid_a wa wb wr a b <> xor2_spec wr a b.
 Proof. exists 1, 1, 2, 0, 0. unfold fits. repeat split; try (cbn; lia); vm_compute; discriminate. Qed.
-(* Equal with b wider than a reports equality of a with the truncated b *)
-Lemma Equal_wide_refuted : exists wa wb a b, fits wa a /\ fits wb b /\ Equal_m wa wb a b <> equal_spec a b.
+(* Equal with an xor wire of a's width and b wider than a reports equality of a with the truncated b *)
+Lemma Equal_wide_refuted : exists wa wb a b, fits wa a /\ fits wb b /\ Equal_m mid_a eqw_a wa wb a b <> equal_spec a b.
 Proof. exists 1, 2, 1, 3. unfold fits. repeat split; try (cbn; lia); vm_compute; discriminate. Qed.
